@@ -692,6 +692,51 @@ def reset_discipline(sym):
     return ok, at_start
 
 
+def dedup_sites(sym):
+    """AND._evaluate__ / ElseIf._evaluate__: WHERE the duplicate check is applied.  Every statement `if self._is_duplicate_output_(row): continue`
+    is located and the chain of enclosing `if` tests (then-branches only) is compared with the two chains Dedup.v transcribes:
+        AND     under  `self._yield_when_false_ and self.left._is_false_`                      (a FALSE left row passed up)
+        ElseIf  under  `self.left._is_false_`  then  `not self._is_false_`                       (a TRUE row of the right side)
+    Any other number of sites or any other chain is refused."""
+    E = lambda src: ast.dump(ast.parse(src).body[0].value)
+
+    def sites(fn):
+        found = []
+
+        def walk(stmts, chain):
+            for st in stmts:
+                if isinstance(st, ast.If):
+                    t = st.test
+                    if isinstance(t, ast.Call) and isinstance(t.func, ast.Attribute) and t.func.attr == '_is_duplicate_output_':
+                        need([ast.dump(x) for x in st.body] == [ast.dump(ast.parse('while 1:\n    continue').body[0].body[0])] and not st.orelse,
+                             f'{fn.name}: a duplicate is not simply skipped')
+                        found.append(list(chain))
+                        continue
+                    need('_is_duplicate_output_' not in ast.dump(t), f'{fn.name}: unrecognised use of the duplicate check in a test')
+                    walk(st.body, chain + [ast.dump(t)])
+                    walk(st.orelse, chain + ['else:' + ast.dump(t)])
+                elif isinstance(st, (ast.For, ast.While)):
+                    walk(st.body, chain)
+                    walk(st.orelse, chain)
+                elif isinstance(st, ast.Try):
+                    walk(st.body, chain)
+                    walk(st.finalbody, chain)
+                    for h in st.handlers:
+                        walk(h.body, chain)
+                elif isinstance(st, ast.With):
+                    walk(st.body, chain)
+                else:
+                    need('_is_duplicate_output_' not in ast.dump(st), f'{fn.name}: unrecognised use of the duplicate check')
+        walk(fn.body, [])
+        return found
+    a = sites(method(find(sym, ast.ClassDef, 'AND'), '_evaluate__'))
+    e = sites(method(find(sym, ast.ClassDef, 'ElseIf'), '_evaluate__'))
+    a_ok = a == [[E("self._yield_when_false_ and self.left._is_false_")]]
+    e_ok = e == [[E("self.left._is_false_"), E("not self._is_false_")]]
+    need(len(a) == 1 and len(e) == 1, 'AND / ElseIf: not exactly one duplicate check each')
+    return ('SiteFalseLeft' if a_ok else 'SiteOther'), ('SiteRightTrue' if e_ok else 'SiteOther')
+
+
 def rule_builders(rule):
     """rule.refinement / rule.alternative_or_next: how the new operator is wrapped around the current node and linked into the
     operator above it.  Recognised shapes only; anything else is refused."""
@@ -817,6 +862,7 @@ def emit(d):
     rq = required_variables(sym)
     ds = dedup_site(sym, parse(os.path.join(d, 'cache_data.py')))
     rd = reset_discipline(sym)
+    dsites = dedup_sites(sym)
     o = []
     o.append("(* Generated.v — REGENERATED ON EVERY RUN by translator/eql2coq.py from /repo's current source. Do not edit. *)")
     o.append("From EQL Require Import Base Values.\n")
@@ -915,6 +961,10 @@ def emit(d):
     o.append("")
     o.append("(* SymbolicExpression._is_duplicate_output_, SeenSet.add, SeenSet.check have the statements Dedup.dup_check transcribes (pinned) *)")
     o.append(f"Definition dedup_site_as_modelled : bool := {'true' if ds else 'false'}.")
+    o.append("(* where AND / ElseIf apply the duplicate check: to a FALSE left row that is passed up / to a TRUE row of the right side *)")
+    o.append("Inductive dsite := SiteFalseLeft | SiteRightTrue | SiteOther.")
+    o.append(f"Definition and_dedup_site : dsite := {dsites[0]}.")
+    o.append(f"Definition else_dedup_site : dsite := {dsites[1]}.")
     o.append("(* An.evaluate / The.evaluate reset the de-duplication state in a finally clause around the whole evaluation (every exit) *)")
     o.append(f"Definition evaluation_resets_dedup_state : bool := {'true' if rd[0] else 'false'}.")
     o.append("(* ... and before it starts (an abandoned evaluation whose iterator is still referenced has not run its finally clause) *)")
